@@ -35,3 +35,19 @@ Example C09_example :
              empty_edits in
   spec_ranges s = true /\ spec_of_doc (doc_of_spec s) = Ok s.
 Proof. vm_compute. split; reflexivity. Qed.
+
+(* ---- the writer encodes with the yaml tags, the reader decodes with the json tags: per field of the layout REGENERATED from
+   specs-go/config.go both tags carry the same name and the same omitempty flag; the encoder model emits exactly the layout's
+   members, and the decoder model looks for exactly the encoder's member names ---- *)
+From CDI Require Import Schema SchemaInst SchemaInstProofs DecodeProofs.
+From CDIGen Require Import LayoutGen.
+Theorem C09_tags_agree :
+  forallb (fun sf => forallb (fun f => String.eqb (f_json f) (f_yaml f) && Bool.eqb (f_json_omit f) (f_yaml_omit f)) (snd sf)) layout = true.
+Proof. exact tags_agree. Qed.
+Print Assumptions C09_tags_agree.
+Theorem C09_encoder_follows_layout : encoder_probes = map (fun sf => (fst sf, layout_probe (snd sf))) layout.
+Proof. exact encoder_follows_layout. Qed.
+Print Assumptions C09_encoder_follows_layout.
+Theorem C09_decoder_names_are_encoder_names : map (fun p => (fst p, fst (snd p))) encoder_probes = decoder_fields.
+Proof. exact layout_names_agree. Qed.
+Print Assumptions C09_decoder_names_are_encoder_names.
